@@ -216,6 +216,65 @@ def mon_c02(im, p):
     return {'fail': fails, 'nontrivial': out.startswith('ok')}
 
 
+def mon_c01_scen(im, p):
+    """budget scenarios with an exact, model-free oracle: the number of node evaluations a program needs is measured once
+    without a limit (K); with budget N < K it must raise the ops-limit error, with N > K it must succeed identically -
+    also when the SAME ast_names LambdaOp objects / the same parser have been used before, when the limit strikes inside a
+    callback of filter / map / sorted / reduce / try-less builtins, and when a host callable re-enters eval"""
+    ns = im.ns
+    A = ns.ast_ops
+    OL = ns.exc.OpsExecutionLimitExceededError
+    fails = []
+    for sc in p['scenarios']:
+        parser = sqimpl.Impl(ns).p
+        ast_names = None
+        if sc.get('astfns'):
+            ast_names = {n: A.LambdaOp(args=[A.NameOp(q) for q in ps], expr=parser.parse(body)) for n, ps, body in sc['astfns']}
+
+        def run(N, reps=1):
+            outs = []
+            for _ in range(reps):
+                names = dict(evalimpl.Host({}).fns)
+                names.update({k: D(v) if not isinstance(v, list) else [D(x) for x in v] for k, v in sc.get('names', {}).items()})
+                if sc.get('reenter'):
+                    names['sub'] = lambda src, _p=parser: _p.eval(src, {})
+                kw = {'ast_names': ast_names} if ast_names is not None else {}
+                try:
+                    outs.append(('ok', str(parser.eval(sc['src'], names, max_ops_evaluated=N, **kw))))
+                except OL:
+                    outs.append(('opslimit', ''))
+                except Exception as e:
+                    outs.append((type(e).__name__, ''))
+            return outs
+        big = run(10 ** 6)[0]
+        # K: smallest budget at which the program completes (found by bisection on a fresh parser each time is costly:
+        # the same parser is the point of the scenario)
+        lo, hi = 1, 4000
+        if run(hi)[0] != big:
+            continue
+        while lo < hi:
+            mid = (lo + hi) // 2
+            if run(mid)[0] == big:
+                hi = mid
+            else:
+                lo = mid + 1
+        K = lo
+        why = None
+        for N in sorted({max(1, K // 3), max(1, K // 2), K - 2, K - 1}):
+            if N < 1 or N >= K:
+                continue
+            for o in run(N, reps=2):
+                if o[0] != 'opslimit':
+                    why = f'needs budget {K}; with N={N} the outcome is {o} instead of the ops-limit error'
+        for N in (K, K + 1, 2 * K):
+            for o in run(N, reps=3):
+                if o != big:
+                    why = why or f'needs budget {K}; with N={N} (repeated on the same parser) the outcome is {o}, unbounded run gives {big}'
+        if why:
+            fails.append({'signature': 'budget-not-exact', 'what': f'{sc["src"]!r}: {why}', 'input': sc})
+    return {'fail': fails, 'nontrivial': True}
+
+
 def mon_c02_process(im, p):
     """the same audit, in a pristine interpreter (forked from a process that imported the library and never evaluated
     anything): whatever an evaluation defers to its first use - an import, a table load, a compile - shows here"""
@@ -328,17 +387,20 @@ def mon_c03_adders(im, p):
     makers = {'list': lambda n: list(range(n)), 'dict': lambda n: {str(i): i for i in range(n)},
               'list-subclass': lambda n: _L(range(n)), 'dict-subclass': lambda n: _D((str(i), i) for i in range(n)),
               'OrderedDict': lambda n: collections.OrderedDict((str(i), i) for i in range(n)),
-              'defaultdict': lambda n: collections.defaultdict(int, ((str(i), i) for i in range(n)))}
+              'defaultdict': lambda n: collections.defaultdict(int, ((str(i), i) for i in range(n))),
+              'dict-of-lists': lambda n: {str(i): [i] for i in range(n)}, 'list-of-lists': lambda n: [[i] for i in range(n)]}
     for n in (9998, 9999, 10000, 10001):
-        for kind0 in ('list', 'dict', 'list-subclass', 'dict-subclass', 'OrderedDict', 'defaultdict'):
+        for kind0 in ('list', 'dict', 'list-subclass', 'dict-subclass', 'OrderedDict', 'defaultdict', 'dict-of-lists', 'list-of-lists'):
             if kind0 not in ('list', 'dict') and n not in (10000, 10001):
                 continue
             kind = 'list' if kind0.startswith('list') else 'dict'
             for stmt, valid_on in p['stmts']:
                 if kind0 == 'defaultdict' and 'c["fresh"][' in stmt:
                     continue      # READING a missing key of a host defaultdict runs the host's own __missing__ (which inserts)
+                if ('[3]' in stmt) != kind0.endswith('-of-lists'):
+                    continue      # the statements that extend an ELEMENT run on containers of lists only (and only they do)
                 c = makers[kind0](n)
-                snap = copy.copy(c)
+                snap = copy.deepcopy(c) if kind0.endswith('-of-lists') else copy.copy(c)
                 try:
                     im.p.eval(stmt, dict(evalimpl.Host({}).fns, c=c), max_ops_evaluated=1000)
                     outcome = 'ok'
@@ -362,6 +424,33 @@ NUMERIC_BUILTINS = ('int', 'float', 'round', 'floor', 'ceil', 'abs', 'sum', 'min
 def mon_c04(im, p):
     ns = im.ns
     A = ns.ast_ops
+    if 'poison_seq' in p:
+        # a failing evaluation first, arithmetic afterwards on the same parser AND on a new one: whatever the failure left
+        # behind at thread / module level (decimal context, caches), later results still have at most 28 digits
+        fails = []
+        for fresh in (False, True):
+            imx = sqimpl.Impl(ns)
+            for j, src in enumerate(p['poison_seq']):
+                if fresh and j:
+                    imx = sqimpl.Impl(ns)
+                try:
+                    r = imx.p.eval(src, {'a': D(10) ** 20 + 1})
+                except Exception:
+                    continue
+                vals = []
+                walk(r, lambda x: vals.append(x))
+                for x in vals:
+                    if isinstance(x, decimal.Decimal) and digits_of(x) > 28:
+                        fails.append({'signature': 'digits-after-failure', 'what': f'{src!r} evaluated after {p["poison_seq"][:j]!r} returned '
+                                      f'{digits_of(x)} significant digits', 'input': p})
+                        break
+                if fails:
+                    break
+            if fails:
+                break
+        # leave the thread's context as it was found: the next payload must not inherit it
+        decimal.getcontext().prec = 28
+        return {'fail': fails, 'nontrivial': True}
     if 'ctxprec' in p:
         # a parser CONSTRUCTED while the host's thread is temporarily at another decimal precision, used afterwards at the
         # default one: arithmetic stays in 28-digit decimals
